@@ -255,7 +255,12 @@ def r2(ctx):
         pg = param_names(g.node)
         for a_, b2 in zip(pw, pg):
             w = re.sub(r"\b%s\b" % re.escape(a_), b2, w) if a_ != b2 else w
-        ok, why = contains(P, g, w)
+        alts = [w]
+        if "itertools.product(terms_left, terms_right)" in w.replace(pg[0], "terms_left").replace(pg[1] if len(pg) > 1 else "", "terms_right") and len(pg) == 2:
+            a1, a2 = pg
+            alts.append(w.replace(f"for term_left, term_right in itertools.product({a1}, {a2}):\n", f"for term_left in {a1}:\n                    for term_right in {a2}:\n    "))
+        from ..expect import contains_any
+        ok, why = contains_any(P, g, alts)
         extra = sum(1 for n in ast.walk(g.node) if isinstance(n, (ast.Return, ast.Raise))) - sum(1 for n in ast.walk(ast.parse(__import__("textwrap").dedent(w))) if isinstance(n, (ast.Return, ast.Raise)))
         ctx.check(ok and extra <= 0, "C16.R2", f"{name} has its documented denotation", g.where, ctx.construct(g, text="denotation"),
                   f"{why or 'additional ways of returning were added'}")
